@@ -102,8 +102,19 @@ fn run_history<T: Sc>(spec: &ProblemSpec, hist: &[Vec<f64>], pool: Option<&rayon
 
 fn par_case<T: Sc>(rng: &mut Rng, case: u64, out: &mut CaseOut, pools: &[usize], delay_seeds: usize) {
     let stream = "pools-and-schedules";
-    let (spec, hist) = gen_par_spec(rng, 16);
+    let (spec, mut hist) = gen_par_spec(rng, 16);
     let np = spec.model.np();
+    if rng.chance(0.3) {
+        // a step into a region where the basis matrix is not finite, followed by a benign one
+        let mut bad = hist[0].clone();
+        let k = rng.below(np);
+        bad[k] = *rng.pick(&[f64::NAN, f64::INFINITY, -1e-3 * bad[k].abs().max(1e-3), 1e308]);
+        let back = hist[hist.len() - 1].clone();
+        let at = rng.int(1, hist.len());
+        hist.insert(at, bad);
+        hist.push(back);
+        out.count("histories_with_non_finite_step");
+    }
     let mut seq_spec = spec.clone();
     seq_spec.par = false;
     let Some((seq_snaps, _, _)) = run_history::<T>(&seq_spec, &hist, None, 0) else {
@@ -129,6 +140,11 @@ fn par_case<T: Sc>(rng: &mut Rng, case: u64, out: &mut CaseOut, pools: &[usize],
             // (a) parallel vs sequential
             for (i, (ps, ss)) in snaps.iter().zip(&seq_snaps).enumerate() {
                 out.evals += 1;
+                if ps.resid.is_some() != ss.resid.is_some() || ps.coeff.is_some() != ss.coeff.is_some() || ps.jac.is_some() != ss.jac.is_some() {
+                    violation(out, stream, case, format!("parallel problem (pool of {t}) and sequential problem disagree about which quantities exist at step {i} (alpha {:?}): parallel residuals/coefficients/jacobian present = {}/{}/{}, sequential = {}/{}/{}", ps.params,
+                        ps.resid.is_some(), ps.coeff.is_some(), ps.jac.is_some(), ss.resid.is_some(), ss.coeff.is_some(), ss.jac.is_some()), json!({"problem": spec.to_json(), "pool": t}));
+                    return;
+                }
                 if bit_diff(ps, ss).is_none() {
                     out.count("steps_bitwise_equal_to_sequential");
                 } else {
@@ -299,9 +315,9 @@ pub fn run(ctx: &Ctx) {
     let pools = if t == Tier::Quick { pools_q } else { pools_t };
     let ds = t.pick(2, 8);
     // each case builds its own pools: limit harness-level threads so that 16-thread pools are not starved
-    ctx.run_cases("pools-and-schedules", t.pick(300, 2500), t.pick(20.0, 400.0), |r, c, o| if c % 3 == 0 { par_case::<f32>(r, c, o, &pools, ds) } else { par_case::<f64>(r, c, o, &pools, ds) });
+    ctx.run_cases("pools-and-schedules", t.pick(500, 2500), t.pick(20.0, 400.0), |r, c, o| if c % 3 == 0 { par_case::<f32>(r, c, o, &pools, ds) } else { par_case::<f64>(r, c, o, &pools, ds) });
     let fit_pools = vec![1usize, 3, 8];
-    ctx.run_cases("fits", t.pick(150, 3000), t.pick(15.0, 200.0), |r, c, o| if c % 4 == 0 { fit_case::<f32>(r, c, o, &fit_pools) } else { fit_case::<f64>(r, c, o, &fit_pools) });
+    ctx.run_cases("fits", t.pick(400, 3000), t.pick(15.0, 200.0), |r, c, o| if c % 4 == 0 { fit_case::<f32>(r, c, o, &fit_pools) } else { fit_case::<f64>(r, c, o, &fit_pools) });
     {
         let tot = ctx.total.lock().unwrap();
         let multi = tot.counters.get("parallel_jacobians_on_two_or_more_workers").cloned().unwrap_or(0);
